@@ -243,6 +243,19 @@ class CheckC16(core.Check):
         r.nontrivial = nconc > 0 and ooo > 0
         return r
 
+    def san_cases(self, tool):
+        rnd = random.Random(self.seed * 7 + (1 if tool == "tsan" else 2))
+        cases = []
+        if tool == "tsan":
+            for i in range(32):
+                c = self.build((rnd.choice(CIPHERS), "D", rnd.choice(["NN", "XX", "N"]), rnd.getrandbits(32)), threads=rnd.choice([4, 8]))
+                cases.append(c)
+        else:
+            for i in range(16):
+                c = self.build((CIPHERS[i % 3], "D", ["NN", "N"][i % 2], rnd.getrandbits(32)), small=True, threads=3)
+                cases.append(c)
+        return cases
+
     # ------------------------------------------------------------ sanitizer runs (thorough)
 
     def extra_runs(self, binary):
